@@ -236,7 +236,8 @@ func (g *MCG) addEdge(from *ssa.Function, site ssa.CallInstruction, callee *ssa.
 		}
 	}
 	g.Out[from] = append(g.Out[from], Edge{site, callee, kind})
-	if site != nil {
+	if site != nil && kind != "callback" && kind != "reflect" {
+		// only edges whose arguments correspond positionally to the callee's parameters
 		g.Sites[site] = append(g.Sites[site], callee)
 	}
 }
